@@ -17,6 +17,7 @@ Every class that stands for a numerical inequality is computed here, next to the
   ook      stored objective == dot(stored r, stored r) + h(x), rtol 1e-12                      (C03, C17)
   feas     max_i dist(x, set_i) <= sqrt(p*tol) with p = user sets + box, tol = dykstra.d_tol   (C09, C15)
 """
+import hashlib
 import json
 import logging
 import math
@@ -167,7 +168,7 @@ class Run(object):
         self.calls.append(dict(i=i, x=x, r=None if raised else r.copy(), f=f, raised=raised))
         if args:
             self.argsf_seen = args
-        self.emit("Call", i=i, xid=self.xid(x), pos=pos_classes(x, P["lo"], P["hi"]), f=f, cls=("raise" if raised else rclass(r)),
+        self.emit("Call", i=i, xh=hashlib.sha1(x.tobytes()).hexdigest()[:12], xid=self.xid(x), pos=pos_classes(x, P["lo"], P["hi"]), f=f, cls=("raise" if raised else rclass(r)),
                   raised=raised, feas=feas, xfin=bool(np.all(np.isfinite(x))))
         if raised:
             raise problems.InjectedError("injected at evaluation %d" % i)
